@@ -1426,3 +1426,199 @@ def overwrite(ctx, repo, scope=("",), rule="OVERWRITE", _self=False):
 
 NEW9 = [overwrite]
 GENERIC.extend(NEW9)
+
+
+# ---------------------------------------------------------------------------
+# GUARD-OTHER: `a is None or <something about b>` next to `b is None or ...`
+# ---------------------------------------------------------------------------
+_POSITIVE["GUARD-OTHER"] = '''
+def is_really_zero(rec):
+    v1, v2 = rec.Value1, rec.Value2
+    return (v1 is None or v1.getEffectiveFormat() == 0) and (
+        v2 is None or v1.getEffectiveFormat() == 0
+    )
+'''
+
+
+def guard_other(ctx, repo, scope=("",), rule="GUARD-OTHER", _self=False):
+    ctx.rule(rule, "in `x is None or <test>` (or `x is not None and <test>`) the guarded test is about x; when it never mentions x but dereferences another name that has its own None-guard in the same expression, the second clause is a copy of the first with only half of it renamed", floor=1)
+    if not _self:
+        _selfcheck(ctx, rule, guard_other)
+    for rel in sorted(repo.rels()):
+        if not _in_scope(rel, scope):
+            continue
+        m = repo.mod(rel)
+        total = 0
+        bad = []
+        for top in ast.walk(m.tree):
+            if not isinstance(top, ast.BoolOp) or isinstance(parent(top), ast.BoolOp):
+                continue
+            guards = []  # (guarded name text, rest expressions)
+            for b in ast.walk(top):
+                if not isinstance(b, ast.BoolOp) or len(b.values) < 2:
+                    continue
+                first = b.values[0]
+                if isinstance(first, ast.Compare) and len(first.ops) == 1 and isinstance(first.comparators[0], ast.Constant) and first.comparators[0].value is None and (isinstance(b.op, ast.Or) and isinstance(first.ops[0], ast.Is) or isinstance(b.op, ast.And) and isinstance(first.ops[0], ast.IsNot)) and isinstance(first.left, (ast.Name, ast.Attribute)):
+                    guards.append((norm(first.left), b.values[1:], b))
+            if len(guards) < 2:
+                continue
+            names = {g[0] for g in guards}
+            for gname, rest, b in guards:
+                total += 1
+                txt = [norm(r) for r in rest]
+                mentions_self = any(isinstance(x, (ast.Name, ast.Attribute)) and norm(x) == gname for r in rest for x in ast.walk(r))
+                others = {o for o in names - {gname} if any(isinstance(x, ast.Attribute) and norm(x.value) == o for r in rest for x in ast.walk(r))}
+                if not mentions_self and others:
+                    bad.append(f"line {b.lineno}: `{norm(b)[:70]}` guards {gname} but tests {sorted(others)[0]}")
+        if total:
+            ctx.ob(rule, f"{rel}:<module>", f"{total} None-guarded clauses test the name they guard", not bad, "; ".join(bad[:3]))
+
+
+NEW10 = [guard_other]
+GENERIC.extend(NEW10)
+
+
+# ---------------------------------------------------------------------------
+# THRESH-MIX: one function tests the same value against the same threshold with >= in one place and > in another
+# ---------------------------------------------------------------------------
+_POSITIVE["THRESH-MIX"] = '''
+def decompile(self, data, version):
+    if version >= 3.0:
+        head = data[:8]
+    body = data
+    if version > 3.0:
+        body = data[8:]
+'''
+THRESH_MIX_AUDIT = {
+    ("pens/basePen.py", "BasePen.qCurveTo", "n", 0): "`assert n >= 0` states the precondition, `if n > 0` separates the empty case: different questions",
+    ("tfmLib.py", "TFM._read", "cmd.skip_byte", 128): "TFM lig/kern programs: skip_byte > 128 marks an indirect start / boundary entry, >= 128 ends a program (TeX: The Program, sections 545, 573)",
+}
+
+
+def thresh_mix(ctx, repo, scope=("",), rule="THRESH-MIX", _self=False):
+    ctx.rule(rule, "within one function a value is compared with one numeric threshold consistently: `x >= k` in one place and `x > k` in another (or `<` and `<=`) treat the boundary value k differently at two sites that are meant to cooperate (a header read under `version >= 3.0` and the matching skip under `version > 3.0`)", floor=1)
+    if not _self:
+        _selfcheck(ctx, rule, thresh_mix)
+    from ..consteval import try_fold
+
+    for rel in sorted(repo.rels()):
+        if not _in_scope(rel, scope):
+            continue
+        m = repo.mod(rel)
+        total = 0
+        bad = []
+        for q, f in sorted(m.funcs.items()):
+            if isinstance(f.node, ast.Lambda):
+                continue
+            seen = {}
+            for c in walk_no_nested(f.node):
+                if isinstance(c, ast.Compare) and len(c.ops) == 1 and isinstance(c.ops[0], (ast.Gt, ast.GtE, ast.Lt, ast.LtE)):
+                    k = try_fold(c.comparators[0]) if not _self else (c.comparators[0].value if isinstance(c.comparators[0], ast.Constant) else None)
+                    if isinstance(k, (int, float)) and not isinstance(k, bool):
+                        seen.setdefault((norm(c.left), k), set()).add(type(c.ops[0]).__name__)
+            for (l, k), ops in sorted(seen.items(), key=str):
+                total += 1
+                if ({"Gt", "GtE"} <= ops or {"Lt", "LtE"} <= ops) and (rel, q.split("#")[0], l, k) not in THRESH_MIX_AUDIT:
+                    bad.append(f"{q}: `{l}` is compared with {k} using {sorted(ops)}")
+        if total:
+            ctx.ob(rule, f"{rel}:<module>", f"{total} (value, threshold) pairs are compared with one boundary convention per function", not bad, "; ".join(bad[:3]))
+
+
+NEW11 = [thresh_mix]
+GENERIC.extend(NEW11)
+
+
+# ---------------------------------------------------------------------------
+# ELIF-OVERLAP / RSTRIP-SET
+# ---------------------------------------------------------------------------
+_POSITIVE["ELIF-OVERLAP"] = '''
+_round = {"ascender", "winDescent", "lowestRecPPEM"}
+_nonNegative = {"winDescent", "lowestRecPPEM", "weightClass"}
+def convert(attr, value):
+    if attr in _round:
+        value = round(value)
+    elif attr in _nonNegative:
+        value = abs(value)
+    return value
+'''
+_POSITIVE["RSTRIP-SET"] = '''
+def intOrFloat(num):
+    if int(num) == num:
+        return "%d" % num
+    return ("%f" % num).rstrip("0.")
+'''
+
+
+def elif_overlap(ctx, repo, scope=("",), rule="ELIF-OVERLAP", _self=False):
+    ctx.rule(rule, "when successive arms of one if / elif chain test membership of the same value in two module-level constant collections that share members, the shared members only ever take the first arm; conversions that are meant to stack (round, then make non-negative) must be separate `if` statements", floor=1)
+    if not _self:
+        _selfcheck(ctx, rule, elif_overlap)
+    from ..consteval import try_fold
+
+    for rel in sorted(repo.rels()):
+        if not _in_scope(rel, scope):
+            continue
+        m = repo.mod(rel)
+        total = 0
+        bad = []
+
+        def coll(e):
+            if isinstance(e, ast.Name) and e.id in m.assigns:
+                v = m.assigns[e.id]
+                if isinstance(v, (ast.Set, ast.List, ast.Tuple)) and all(isinstance(x, ast.Constant) for x in v.elts):
+                    return {x.value for x in v.elts}
+                if isinstance(v, ast.Call) and isinstance(v.func, ast.Name) and v.func.id in ("set", "frozenset") and v.args and isinstance(v.args[0], (ast.Set, ast.List, ast.Tuple)) and all(isinstance(x, ast.Constant) for x in v.args[0].elts):
+                    return {x.value for x in v.args[0].elts}
+                if isinstance(v, ast.Dict) and all(isinstance(k, ast.Constant) for k in v.keys):
+                    return {k.value for k in v.keys}
+            return None
+
+        for node in ast.walk(m.tree):
+            if not isinstance(node, ast.If) or (isinstance(parent(node), ast.If) and parent(node).orelse == [node]):
+                continue
+            arms = []
+            cur = node
+            while isinstance(cur, ast.If):
+                t = cur.test
+                if isinstance(t, ast.Compare) and len(t.ops) == 1 and isinstance(t.ops[0], ast.In):
+                    arms.append((norm(t.left), norm(t.comparators[0]), coll(t.comparators[0]), cur))
+                else:
+                    arms.append((None, None, None, cur))
+                cur = cur.orelse[0] if len(cur.orelse) == 1 else None
+            for i in range(len(arms)):
+                for j in range(i + 1, len(arms)):
+                    a, b = arms[i], arms[j]
+                    if a[0] is None or a[0] != b[0] or a[2] is None or b[2] is None:
+                        continue
+                    total += 1
+                    common = a[2] & b[2]
+                    # an arm that returns / raises ends the matter for its members: overlap is then a priority order
+                    ends = all(isinstance(s, (ast.Return, ast.Raise, ast.Continue, ast.Break)) for s in a[3].body[-1:])
+                    if common and not ends:
+                        bad.append(f"line {b[3].lineno}: `{b[0]} in {b[1]}` is an elif of `in {a[1]}`; {sorted(map(str, common))[:3]} are in both and never reach it")
+        if total:
+            ctx.ob(rule, f"{rel}:<module>", f"{total} pairs of membership arms over constant collections are disjoint", not bad, "; ".join(bad[:3]))
+
+
+def rstrip_set(ctx, repo, scope=("",), rule="RSTRIP-SET", _self=False):
+    ctx.rule(rule, "a formatted number is trimmed with `.rstrip('0').rstrip('.')`, never with a character set that holds both '0' and '.': rstrip('0.') keeps stripping past the decimal point and turns 490.000000 into 49", floor=1)
+    if not _self:
+        _selfcheck(ctx, rule, rstrip_set)
+    for rel in sorted(repo.rels()):
+        if not _in_scope(rel, scope):
+            continue
+        m = repo.mod(rel)
+        total = 0
+        bad = []
+        for c in ast.walk(m.tree):
+            if isinstance(c, ast.Call) and isinstance(c.func, ast.Attribute) and c.func.attr in ("rstrip", "strip") and c.args and isinstance(c.args[0], ast.Constant) and isinstance(c.args[0].value, str):
+                total += 1
+                sset = c.args[0].value
+                if "0" in sset and "." in sset:
+                    bad.append(f"line {c.lineno}: {norm(c)[:60]}")
+        if total:
+            ctx.ob(rule, f"{rel}:<module>", f"{total} strip calls with a literal character set: none mixes '0' and '.'", not bad, "; ".join(bad[:3]))
+
+
+NEW12 = [elif_overlap, rstrip_set]
+GENERIC.extend(NEW12)
